@@ -4,6 +4,8 @@
 From Coq Require Import Ascii Lia ZifyBool ZifyN.
 From Coq Require String DecimalN DecimalFacts.
 From PL Require Import Model.Json.
+(* the text-codec proofs, by qualified name only (their wf_oid / print_N ... must not shadow Json's) *)
+From PL Require Proofs.TextPrims Proofs.TextRound Proofs.TextTotal.
 Import String.StringSyntax.
 Local Open Scope N_scope.
 
@@ -48,7 +50,7 @@ Proof.
 Qed.
 
 (* ------------------------------------------------------------------ *)
-(* fixed-width positional text *)
+(* lowercase hex digits by position (the checksum text of Snapshot.v) *)
 
 Lemma range_in d k : d < N.of_nat k -> In d (map N.of_nat (seq 0 k)).
 Proof.
@@ -70,93 +72,62 @@ Qed.
 
 Lemma hex_digits_ok : forall d, d < 16 -> index_of (digit_of hex_al d) hex_al = Some d.
 Proof. apply (digits_ok_spec hex_al 16). vm_compute. reflexivity. Qed.
-Lemma b32_digits_ok : forall d, d < 32 -> index_of (digit_of b32_al d) b32_al = Some d.
-Proof. apply (digits_ok_spec b32_al 32). vm_compute. reflexivity. Qed.
 
-Lemma fixed_length al base k n : length (fixed al base k n) = k.
-Proof.
-  revert n; induction k as [|k IH]; intros n; cbn [fixed]; [reflexivity|].
-  rewrite app_length, IH. cbn. lia.
-Qed.
+(* ------------------------------------------------------------------ *)
+(* id text: the definitions are those of Model/Ids.v / Model/Text.v; the round
+   trips are the ones proved for the text codecs (C16), the absence of panics
+   is C18's. *)
 
-Section Unfixed.
-Variables (al : str) (base : N).
-Hypothesis base_pos : 0 < base.
-Hypothesis dig_ok : forall d, d < base -> index_of (digit_of al d) al = Some d.
-
-Let step := fun (acc : option N) (c : ascii) =>
-  match acc, index_of c al with Some a, Some v => Some (a * base + v) | _, _ => None end.
-
-Lemma fold_fixed k : forall n a, n < base ^ N.of_nat k ->
-  fold_left step (fixed al base k n) (Some a) = Some (a * base ^ N.of_nat k + n).
-Proof.
-  induction k as [|k IH]; intros n a L.
-  - cbn [fixed fold_left]. rewrite N.pow_0_r in *. f_equal. lia.
-  - cbn [fixed]. rewrite fold_left_app.
-    rewrite Nat2N.inj_succ, N.pow_succ_r' in *.
-    assert (Q : n / base < base ^ N.of_nat k).
-    { apply N.div_lt_upper_bound; lia. }
-    rewrite (IH _ _ Q). cbn [fold_left]. unfold step at 1.
-    rewrite dig_ok by (apply N.mod_lt; lia).
-    f_equal. pose proof (N.div_mod n base ltac:(lia)). lia.
-Qed.
-
-Lemma unfixed_fixed k n : n < base ^ N.of_nat k -> unfixed al base (fixed al base k n) = Some n.
-Proof.
-  intros L. unfold unfixed. fold step. rewrite fold_fixed by exact L. f_equal; lia.
-Qed.
-End Unfixed.
-
-Lemma take_app n a r : length a = n -> take n (a ++ r) = Some (a, r).
-Proof.
-  revert a; induction n as [|n IH]; intros [|c a] E; cbn in *; try discriminate; [reflexivity|].
-  injection E as E. now rewrite (IH _ E).
-Qed.
-
-Lemma pow16_32 : 16 ^ N.of_nat 32 = W128. Proof. vm_compute. reflexivity. Qed.
-Lemma pow32_26 : W128 <= 32 ^ N.of_nat 26. Proof. vm_compute. discriminate. Qed.
-
-Ltac explode_list h :=
-  repeat (destruct h as [|? h]; [discriminate|]); destruct h; [|discriminate].
+Lemma W128_U128 : W128 = Ids.U128.
+Proof. reflexivity. Qed.
 
 Lemma print_uuid_length n : length (print_uuid n) = 36%nat.
-Proof.
-  unfold print_uuid.
-  remember (fixed hex_al 16 32 n) as h eqn:E.
-  assert (L : length h = 32%nat) by (subst; apply fixed_length).
-  clear E. explode_list h. reflexivity.
-Qed.
+Proof. apply TextPrims.print_uuid_length. Qed.
 
 Lemma parse_print_uuid n : n < W128 -> parse_uuid (print_uuid n) = Some n.
-Proof.
-  intros L. unfold parse_uuid. rewrite print_uuid_length. cbn [Nat.eqb].
-  unfold print_uuid.
-  remember (fixed hex_al 16 32 n) as h eqn:E.
-  assert (Lh : length h = 32%nat) by (subst; apply fixed_length).
-  pose proof E as E'. clear E.
-  explode_list h.
-  cbn -[unfixed hex_al]. rewrite E'.
-  apply unfixed_fixed; [lia | exact hex_digits_ok | rewrite pow16_32; exact L].
-Qed.
+Proof. apply TextPrims.parse_print_uuid. Qed.
 
 Lemma print_ulid_length n : length (print_ulid n) = 26%nat.
-Proof. apply fixed_length. Qed.
+Proof. apply TextPrims.print_ulid_length. Qed.
 
 Lemma parse_print_ulid n : n < W128 -> parse_ulid (print_ulid n) = Some n.
-Proof.
-  intros L. unfold parse_ulid. rewrite print_ulid_length. cbn [Nat.eqb].
-  unfold print_ulid. rewrite unfixed_fixed; [| lia | exact b32_digits_ok | pose proof pow32_26; lia].
-  f_equal. apply N.mod_small. exact L.
-Qed.
+Proof. apply TextPrims.parse_print_ulid. Qed.
 
 Lemma parse_uuid_ulid n : parse_uuid (print_ulid n) = None.
-Proof. unfold parse_uuid. rewrite print_ulid_length. reflexivity. Qed.
+Proof. apply TextPrims.uuid_rejects_26, TextPrims.print_ulid_length. Qed.
+
+(* the JSON-side parser in terms of its two halves *)
+Lemma parse_oid_unfold s :
+  parse_oid s =
+  match parse_uuid s with
+  | Some n => Some (Uuid n)
+  | None => match parse_ulid s with Some n => Some (Ulid n) | None => None end
+  end.
+Proof.
+  unfold parse_oid, Text.parse_oid, parse_uuid, parse_ulid.
+  destruct (Ids.parse_uuid s); [reflexivity|]. destruct (Ids.parse_ulid s); reflexivity.
+Qed.
 
 Lemma parse_print_oid o : wf_oid o -> parse_oid (print_oid o) = Some o.
 Proof.
-  destruct o as [n|n]; cbn [wf_oid print_oid]; intros L; unfold parse_oid.
-  - now rewrite parse_print_uuid.
-  - now rewrite parse_uuid_ulid, parse_print_ulid.
+  intros L. unfold parse_oid, print_oid. rewrite TextRound.rt_oid; [reflexivity|exact L].
+Qed.
+
+(* The [PPanic] branch of [opt_of_outcome] is dead for the id parser: on EVERY byte
+   string (TextTotal.np_parse_oid; C18_oid states it for the well-formed UTF-8 ones,
+   which is what a JSON string is in Rust). *)
+Lemma parse_oid_no_panic s : Text.parse_oid s <> Text.PPanic.
+Proof. exact (TextTotal.np_parse_oid s). Qed.
+
+Lemma parse_oid_Some s o : parse_oid s = Some o <-> Text.parse_oid s = Text.POk o.
+Proof.
+  unfold parse_oid. destruct (Text.parse_oid s); cbn [opt_of_outcome]; split; congruence.
+Qed.
+
+Lemma parse_oid_None s : parse_oid s = None <-> Text.parse_oid s = Text.PErr.
+Proof.
+  pose proof (parse_oid_no_panic s) as NP.
+  unfold parse_oid. destruct (Text.parse_oid s); cbn [opt_of_outcome]; split; congruence.
 Qed.
 
 Lemma of_to_json_oid o : wf_oid o -> of_json_oid (to_json_oid o) = Some o.
@@ -165,26 +136,83 @@ Lemma of_to_json_uuid n : n < W128 -> of_json_uuid (to_json_uuid n) = Some n.
 Proof. apply parse_print_uuid. Qed.
 
 (* parsed ids are 128-bit *)
-Lemma unfixed_bound al base (Hb : 0 < base) :
-  (forall c v, index_of c al = Some v -> v < base) ->
-  forall s n, unfixed al base s = Some n -> n < base ^ N.of_nat (length s).
+Lemma map_opt_Forall {A B} (f : A -> option B) (P : B -> Prop) :
+  (forall a b, f a = Some b -> P b) ->
+  forall l r, Ids.map_opt f l = Some r -> Forall P r /\ length r = length l.
 Proof.
-  intros Hv s. unfold unfixed.
-  set (step := fun (acc : option N) (c : ascii) =>
-     match acc, index_of c al with Some a, Some v => Some (a * base + v) | _, _ => None end).
-  assert (G : forall s a n, fold_left step s (Some a) = Some n ->
-              n < (a + 1) * base ^ N.of_nat (length s)).
-  { clear s. induction s as [|c s IH]; intros a n E.
-    - cbn in E. injection E as <-. cbn [length]. rewrite N.pow_0_r. lia.
-    - cbn [fold_left] in E. unfold step at 2 in E.
-      destruct (index_of c al) as [v|] eqn:Ev.
-      + apply IH in E. specialize (Hv _ _ Ev). cbn [length].
-        rewrite Nat2N.inj_succ, N.pow_succ_r'.
-        assert (Q : a * base + v + 1 <= (a + 1) * base) by lia.
-        apply (N.mul_le_mono_r _ _ (base ^ N.of_nat (length s))) in Q.
-        rewrite N.mul_assoc. lia.
-      + exfalso. clear -E. induction s as [|c' s IH']; cbn in E; [discriminate|]. apply IH'. exact E. }
-  intros n E. apply G in E. lia.
+  intros Hf l. induction l as [|a l IH]; intros r; cbn [Ids.map_opt].
+  - intros [= <-]. split; [constructor|reflexivity].
+  - destruct (f a) as [b|] eqn:Ea; [|discriminate].
+    destruct (Ids.map_opt f l) as [r'|]; [|discriminate]. intros [= <-].
+    destruct (IH _ eq_refl) as [F L]. split; [constructor; [eapply Hf; eassumption|exact F]|].
+    cbn [length]. now rewrite L.
+Qed.
+
+Lemma horner_bound base ds : 0 < base -> Forall (fun d => d < base) ds ->
+  forall acc, Ids.horner base ds acc < (acc + 1) * base ^ N.of_nat (length ds).
+Proof.
+  intros Hb F. unfold Ids.horner. induction F as [|d ds Hd F IH]; intros acc; cbn [fold_left length].
+  - rewrite N.pow_0_r. lia.
+  - specialize (IH (acc * base + d)). rewrite Nat2N.inj_succ, N.pow_succ_r'.
+    assert (Q : acc * base + d + 1 <= (acc + 1) * base) by lia.
+    apply (N.mul_le_mono_r _ _ (base ^ N.of_nat (length ds))) in Q.
+    rewrite N.mul_assoc. lia.
+Qed.
+
+Lemma hex_val_bound c v : Ids.hex_val c = Some v -> v < 16.
+Proof.
+  unfold Ids.hex_val. set (n := Utf8.code c).
+  destruct ((48 <=? n) && (n <=? 57)) eqn:E1; [intros [= <-]; lia|].
+  destruct ((97 <=? n) && (n <=? 102)) eqn:E2; [intros [= <-]; lia|].
+  destruct ((65 <=? n) && (n <=? 70)) eqn:E3; [intros [= <-]; lia|discriminate].
+Qed.
+
+Lemma hex32_bound s ds : length s = 32%nat -> Ids.map_opt Ids.hex_val s = Some ds ->
+  Ids.horner 16 ds 0 < W128.
+Proof.
+  intros L E. destruct (map_opt_Forall _ (fun d => d < 16) hex_val_bound _ _ E) as [F Lr].
+  pose proof (horner_bound 16 ds ltac:(lia) F 0) as B.
+  rewrite Lr, L in B. change (16 ^ N.of_nat 32) with W128 in B. lia.
+Qed.
+
+Lemma parse_simple_bound s n : length s = 32%nat -> Ids.parse_simple s = Some n -> n < W128.
+Proof.
+  intros L. unfold Ids.parse_simple.
+  destruct (Ids.map_opt Ids.hex_val s) as [ds|] eqn:E; [|discriminate].
+  intros [= <-]. eapply hex32_bound; eassumption.
+Qed.
+
+Lemma parse_hyphenated_bound s n : Ids.parse_hyphenated s = Some n -> n < W128.
+Proof.
+  unfold Ids.parse_hyphenated. destruct (Nat.eqb (length s) 36) eqn:El; [|discriminate].
+  apply Nat.eqb_eq in El. cbn [negb].
+  do 36 (destruct s as [|? s]; [discriminate|]). destruct s; [|discriminate]. clear El.
+  cbn [firstn skipn app].
+  match goal with |- (if ?b then _ else _) = _ -> _ => destruct b; [|discriminate] end.
+  match goal with |- match Ids.map_opt _ ?l with _ => _ end = _ -> _ =>
+    destruct (Ids.map_opt Ids.hex_val l) as [ds|] eqn:E; [|discriminate] end.
+  intros [= <-]. eapply hex32_bound; [|exact E]. reflexivity.
+Qed.
+
+Lemma parse_uuid_bound s n : parse_uuid s = Some n -> n < W128.
+Proof.
+  unfold parse_uuid, Ids.parse_uuid.
+  destruct (Nat.eqb (length s) 32) eqn:E32.
+  { apply Nat.eqb_eq in E32. now apply parse_simple_bound. }
+  destruct (Nat.eqb (length s) 36); [apply parse_hyphenated_bound|].
+  destruct (Nat.eqb (length s) 38).
+  { destruct s as [|o t]; [discriminate|].
+    match goal with |- (if ?b then _ else _) = _ -> _ => destruct b; [|discriminate] end.
+    apply parse_hyphenated_bound. }
+  destruct (Nat.eqb (length s) 45); [|discriminate].
+  destruct (Ids.starts_with Ids.urn_prefix s); [apply parse_hyphenated_bound|discriminate].
+Qed.
+
+Lemma parse_ulid_bound s n : parse_ulid s = Some n -> n < W128.
+Proof.
+  unfold parse_ulid, Ids.parse_ulid. destruct (negb (Nat.eqb (length s) 26)); [discriminate|].
+  destruct (Ids.map_opt Ids.b32_val s); [|discriminate]. intros [= <-].
+  rewrite W128_U128. apply N.mod_lt. discriminate.
 Qed.
 
 (* ------------------------------------------------------------------ *)
@@ -319,55 +347,9 @@ Qed.
 (* ------------------------------------------------------------------ *)
 (* decoded values are in machine range *)
 
-Lemma take_inv n s a r : take n s = Some (a, r) -> s = a ++ r /\ length a = n.
-Proof.
-  revert s a; induction n as [|n IH]; intros s a; cbn [take].
-  - intros [= <- <-]. now split.
-  - destruct s as [|c s]; [discriminate|]. destruct (take n s) as [[a' r']|] eqn:E; [|discriminate].
-    intros [= <- <-]. apply IH in E as [-> <-]. now split.
-Qed.
-Lemma expect_inv c s r : expect c s = Some r -> s = c :: r.
-Proof.
-  destruct s as [|x s]; cbn [expect]; [discriminate|]. destruct (Ascii.eqb x c) eqn:E; [|discriminate].
-  apply Ascii.eqb_eq in E. now intros [= <-]; subst.
-Qed.
-
-Lemma index_of_bound c al v : index_of c al = Some v -> v < N.of_nat (length al).
-Proof.
-  revert v; induction al as [|x al IH]; intros v; cbn [index_of length]; [discriminate|].
-  destruct (Ascii.eqb c x); [intros [= <-]; lia|].
-  destruct (index_of c al) as [v'|]; [|discriminate]. cbn. intros [= <-].
-  specialize (IH _ eq_refl). lia.
-Qed.
-
-Lemma parse_uuid_bound s n : parse_uuid s = Some n -> n < W128.
-Proof.
-  unfold parse_uuid. destruct (Nat.eqb (length s) 36) eqn:El; [|discriminate].
-  apply Nat.eqb_eq in El.
-  destruct (take 8 s) as [[a r1]|] eqn:E1; [|discriminate]. apply take_inv in E1 as [-> La].
-  destruct (expect dash r1) as [r2|] eqn:E2; [|discriminate]. apply expect_inv in E2 as ->.
-  destruct (take 4 r2) as [[b r3]|] eqn:E3; [|discriminate]. apply take_inv in E3 as [-> Lb].
-  destruct (expect dash r3) as [r4|] eqn:E4; [|discriminate]. apply expect_inv in E4 as ->.
-  destruct (take 4 r4) as [[c r5]|] eqn:E5; [|discriminate]. apply take_inv in E5 as [-> Lc].
-  destruct (expect dash r5) as [r6|] eqn:E6; [|discriminate]. apply expect_inv in E6 as ->.
-  destruct (take 4 r6) as [[d r7]|] eqn:E7; [|discriminate]. apply take_inv in E7 as [-> Ld].
-  destruct (expect dash r7) as [e|] eqn:E8; [|discriminate]. apply expect_inv in E8 as ->.
-  intros E. apply (unfixed_bound hex_al 16 ltac:(lia)) in E.
-  - repeat (rewrite app_length in El; cbn [length] in El). 
-    assert (L : length (a ++ b ++ c ++ d ++ e) = 32%nat) by (rewrite !app_length; lia).
-    rewrite L, pow16_32 in E. exact E.
-  - intros ch v Hv. apply index_of_bound in Hv. exact Hv.
-Qed.
-
-Lemma parse_ulid_bound s n : parse_ulid s = Some n -> n < W128.
-Proof.
-  unfold parse_ulid. destruct (Nat.eqb (length s) 26); [|discriminate].
-  destruct (unfixed b32_al 32 s); [|discriminate]. intros [= <-]. apply N.mod_lt. discriminate.
-Qed.
-
 Lemma parse_oid_wf s o : parse_oid s = Some o -> wf_oid o.
 Proof.
-  unfold parse_oid. destruct (parse_uuid s) eqn:E1.
+  rewrite parse_oid_unfold. destruct (parse_uuid s) eqn:E1.
   - intros [= <-]. now apply parse_uuid_bound in E1.
   - destruct (parse_ulid s) eqn:E2; [|discriminate]. intros [= <-]. now apply parse_ulid_bound in E2.
 Qed.
